@@ -4,7 +4,7 @@
 //   cargo test --offline --lib __replay_ptrace_dumper
 use super::*;
 
-fn bare_dumper(mappings: Vec<MappingInfo>) -> PtraceDumper {
+pub(crate) fn bare_dumper(mappings: Vec<MappingInfo>) -> PtraceDumper {
     PtraceDumper {
         pid: 0,
         threads_suspended: false,
@@ -37,5 +37,27 @@ fn c02_get_stack_info_top_of_address_space() {
             Ok(res) => assert!(res.is_err(), "no mapping can contain sp={sp:#x}"),
             Err(_) => panic!("get_stack_info({sp:#x}) panicked instead of returning an error"),
         }
+    }
+}
+
+/// C20: a stack word equal to the END address of the mapping is not a pointer into it.
+#[test]
+fn c20_word_equal_to_end_address_is_not_a_reference() {
+    let m = mapping(0x7000_0000, 0x1000, MMPermissions::READ | MMPermissions::EXECUTE);
+    let mut stack = vec![0u8; 32];
+    stack[8..16].copy_from_slice(&(0x7000_1000usize).to_ne_bytes());
+    assert!(!m.stack_has_pointer_to_mapping(&stack, 0), "0x70001000 is one past the last byte of [0x70000000, 0x70001000)");
+    stack[8..16].copy_from_slice(&(0x7000_0fffusize).to_ne_bytes());
+    assert!(m.stack_has_pointer_to_mapping(&stack, 0));
+}
+
+/// C02: a stack copy shorter than one word must not panic.
+#[test]
+fn c02_short_stack_copy_does_not_panic() {
+    let m = mapping(0x7000_0000, 0x1000, MMPermissions::READ | MMPermissions::EXECUTE);
+    for len in 0..8usize {
+        let stack = vec![0u8; len];
+        let r = std::panic::catch_unwind(|| m.stack_has_pointer_to_mapping(&stack, 0));
+        assert!(matches!(r, Ok(false)), "stack_has_pointer_to_mapping panicked on a {len}-byte stack copy");
     }
 }
